@@ -121,6 +121,51 @@ def check_large_tied(case):
     return tags
 
 
+def check_eo_near_diagonal(case):
+    """Equalized odds where every group's ROC hull passes within 1e-5 of the diagonal (but not on it) at the chosen
+    false-positive rate: groups of 1 000 negatives (vertex at FPR 0.999) and 150 000 - 400 000 positives whose
+    true-positive rate at that vertex is 0.999 + 1/P.  TPR and FPR of the fitted rule are still equal across groups."""
+    import numpy as np
+    from fairlearn.postprocessing import ThresholdOptimizer
+
+    from vf.learners import ScoreColumn
+
+    S, Y, G = [], [], []
+    for k, P in enumerate(case["positives"]):
+        lo_pos = P // 1000 - 1
+        S.append(np.r_[np.ones(999), np.zeros(1), np.ones(P - lo_pos), np.zeros(lo_pos)])
+        Y.append(np.r_[np.zeros(1000), np.ones(P)].astype(int))
+        G.append(np.full(1000 + P, k))
+    s, y, g = np.concatenate(S), np.concatenate(Y), np.concatenate(G)
+    to = ThresholdOptimizer(estimator=ScoreColumn(), constraints="equalized_odds", objective=case["objective"], prefit=True,
+                            predict_method="predict", grid_size=case["grid"], flip=case["flip"])
+    to.fit(s.reshape(-1, 1), y, sensitive_features=g)
+    p = np.asarray(to._pmf_predict(s.reshape(-1, 1), sensitive_features=g))[:, 1]
+    tpr = [float(p[(g == k) & (y == 1)].mean()) for k in range(len(case["positives"]))]
+    fpr = [float(p[(g == k) & (y == 0)].mean()) for k in range(len(case["positives"]))]
+    for name, v in (("true_positive_rate", tpr), ("false_positive_rate", fpr)):
+        if max(v) - min(v) > T.TOL:
+            raise PropertyViolation(f"equalized odds, groups with {case['positives']} positives and 1000 negatives each: expected {name} differs "
+                                    f"between groups by {max(v) - min(v)!r}: {v}")
+    tags = ["nt"]
+    if 0.99 < fpr[0] < 1.0:
+        tags.append("chosen_fpr_next_to_corner")
+    return tags
+
+
+def _eo_near_diagonal_strategy():
+    from hypothesis import strategies as st
+
+    @st.composite
+    def _s(draw):
+        k = draw(st.integers(2, 3))
+        return {"positives": [draw(st.sampled_from([150000, 200000, 250000, 400000])) for _ in range(k)],
+                "objective": draw(st.sampled_from(["balanced_accuracy_score", "accuracy_score"])), "grid": draw(st.sampled_from([1000, 1000, 2000])),
+                "flip": draw(st.booleans())}
+
+    return _s()
+
+
 def _large_tied_strategy():
     from hypothesis import strategies as st
 
@@ -155,6 +200,7 @@ SUBS = [
                 "groups>=3": 0.2}),
     Sub("parity_large_tied_groups", check_large_tied, strategy=_large_tied_strategy, quick=32, thorough=400, shards=16,
         shrink_quick=False, floors={"group>=20000_rows": 0.281, "groups>=10": 0.08}),
+    Sub("eo_near_diagonal", check_eo_near_diagonal, strategy=_eo_near_diagonal_strategy, quick=6, thorough=40, shards=6, shrink_quick=False),
     Sub("parity_exhaustive", check, enumerate=_enumerate, shards=16, exhaustive=True,
         floors={"nt": 0.26, "p_ignore>0": 0.01, "flip_used": 0.01, "vertical_segment": 0.01}),
 ]
